@@ -24,6 +24,7 @@ By convention, the folder "web" in the get_store() holds web interface and can b
 /liquer/web url. 
 
 """
+import os
 from os import makedirs, name, remove
 from pathlib import Path
 import json
@@ -413,17 +414,30 @@ class FileStore(Store):
         metadata["fileinfo"]["filesystem_path"] = str(self.path_for_key(key).resolve())
         return Metadata(metadata).as_dict()
 
+    def _check_inside_root(self, key, path):
+        """Refuse a key whose path ('..' components, absolute key) lies outside the store's root directory."""
+        root = os.path.normpath(str(self.path))
+        target = os.path.normpath(str(path))
+        if target != root and not target.startswith(root.rstrip(os.sep) + os.sep):
+            raise KeyNotSupportedStoreException(
+                f"Key points outside of the store directory", key=key, store=self
+            )
+
     def path_for_key(self, key):
         if key in (None, ""):
             return self.path
         p = self.path / key
         assert p.name != self.METADATA
+        self._check_inside_root(key, p)
         return p
 
     def metadata_path_for_key(self, key):
         p = self.path / key
         assert p.name != self.METADATA
-        return p.parent / self.METADATA / (p.name + ".json")
+        self._check_inside_root(key, p)
+        metadata_path = p.parent / self.METADATA / (p.name + ".json")
+        self._check_inside_root(key, metadata_path)
+        return metadata_path
 
     def get_bytes(self, key):
         if not self.path_for_key(key).exists():
